@@ -193,17 +193,28 @@ def c_restore(ctx):
         raise AnalysisError("LLMParams.__enter__/__exit__ not found", anchor=PARAMS + "::LLMParams.__enter__")
     enter, exit_ = enter[0], exit_[0]
     es, xs = src(enter), src(exit_)
+
+    def _loop_vars(fn, coll):
+        for l in ast.walk(fn):
+            if isinstance(l, ast.For) and coll in src(l.iter) and isinstance(l.target, ast.Tuple) and len(l.target.elts) == 2 and all(isinstance(x, ast.Name) for x in l.target.elts):
+                return l, l.target.elts[0].id, l.target.elts[1].id
+        return None, None, None
+    l_in, P, V = _loop_vars(enter, "altered_params")
+    l_out, P2, V2 = _loop_vars(exit_, "original_params.items()")
+    if l_in is None or l_out is None:
+        raise AnalysisError("LLMParams: loops over altered_params / original_params not recognised", anchor=PARAMS + "::LLMParams.__enter__")
     # branch 1: attribute of the llm
     set1 = any(isinstance(c, ast.Call) and src(c.func) == "setattr" and src(c.args[0]) == "self.llm" for c in ast.walk(enter))
     save1 = any(isinstance(a, ast.Assign) and "original_params" in src(a.targets[0]) and src(a.value).startswith("getattr(self.llm") for a in ast.walk(enter))
     # the save must precede the set in the same block
     order1 = False
-    for i in [n for n in ast.walk(enter) if isinstance(n, ast.If) and "hasattr(self.llm, param)" in src(n.test)]:
-        kinds = ["save" if (isinstance(s, ast.Assign) and "original_params" in src(s.targets[0])) else ("set" if "setattr(self.llm" in src(s) else None) for s in i.body]
+    for i_ in [n for n in ast.walk(enter) if isinstance(n, ast.If) and re.sub(r"\s", "", src(n.test)) == "hasattr(self.llm,%s)" % P]:
+        kinds = ["save" if (isinstance(s_, ast.Assign) and "original_params" in src(s_.targets[0])) else ("set" if "setattr(self.llm" in src(s_) else None) for s_ in i_.body]
         kinds = [k for k in kinds if k]
         order1 = kinds == ["save", "set"]
-    back1 = any(isinstance(n, ast.If) and "hasattr(self.llm, param)" in src(n.test) and any("setattr(self.llm, param, value)" in src(s) for s in n.body) for n in ast.walk(exit_))
-    loop = any(isinstance(n, ast.For) and "original_params.items()" in src(n.iter) for n in ast.walk(exit_))
+    back1 = any(isinstance(n, ast.If) and re.sub(r"\s", "", src(n.test)) == "hasattr(self.llm,%s)" % P2 and
+                any(re.sub(r"\s", "", src(s_)) == "setattr(self.llm,%s,%s)" % (P2, V2) for s_ in n.body) for n in ast.walk(exit_))
+    loop = True
     ctx.check("C15.c.restore-attr", PARAMS, "LLMParams", "attribute branch", set1 and save1 and order1 and back1 and loop,
               "attribute parameters: __enter__ saves getattr(llm, param) before setattr; __exit__ writes every saved value back under the same hasattr test", line=enter.lineno)
     # the restore of an attribute parameter may depend only on `hasattr(self.llm, param)`: no early continue/break, no test of the saved value
@@ -225,10 +236,10 @@ def c_restore(ctx):
                   "the restore of a saved attribute can be skipped (%s): an attribute whose configured value is None (e.g. max_tokens) keeps the per-request override for all later requests"
                   % ("early `%s` in the loop" % type(skips[0]).__name__.lower() if skips else "it is conditional on the saved value"), line=lp.lineno)
     # branch 2: model_kwargs
-    adds = [n for n in ast.walk(enter) if isinstance(n, ast.If) and re.search(r"param not in .*model_kwargs", src(n.test))]
-    sets2 = any(isinstance(a, ast.Assign) and re.search(r"model_kwargs\[param\]", src(a.targets[0])) for a in ast.walk(enter))
+    adds = [n for n in ast.walk(enter) if isinstance(n, ast.If) and re.search(r"%s not in .*model_kwargs" % re.escape(P), src(n.test))]
+    sets2 = any(isinstance(a, ast.Assign) and re.search(r"model_kwargs\[\s*%s\s*\]" % re.escape(P), src(a.targets[0])) for a in ast.walk(enter))
     if sets2:
-        back2 = any(isinstance(a, ast.Assign) and re.search(r"model_kwargs\[param\]$", src(a.targets[0])) and src(a.value) == "value" for a in ast.walk(exit_))
+        back2 = any(isinstance(a, ast.Assign) and re.search(r"model_kwargs\[\s*%s\s*\]$" % re.escape(P2), src(a.targets[0])) and src(a.value) == V2 for a in ast.walk(exit_))
         ctx.check("C15.c.restore-kwargs", PARAMS, "LLMParams", "model_kwargs branch", back2, "model_kwargs parameters that existed before are written back by __exit__", line=exit_.lineno)
         if adds:
             removes = [n for n in ast.walk(exit_) if (isinstance(n, ast.Delete) and "model_kwargs" in src(n)) or
